@@ -358,6 +358,59 @@ def call(fn: Callable, *a, allowed: Tuple[type, ...] = (), clause: str = "no_une
 
 
 # ----------------------------------------------------------------------------------------------
+# Process-wide mode of the standard logging module (lesson of seeded round 6)
+#
+# The checks run the library with logging disabled (silence_library), so `logger.isEnabledFor(DEBUG)` is never true and
+# any code that only runs when debug logging is effective - diagnostics that exhaust an iterator, overwrite a loop
+# variable, format an object with side effects - is never executed.  "Debug logging is on" is a mode of the process, not
+# an input of the property, and every property must hold in it.  Every DEBUG_EVERY-th case that held is therefore judged a
+# second time with the root logger at DEBUG (records go to a NullHandler); a failure there is recorded with the case
+# tagged {"_logging": "DEBUG"}, and every replay of a tagged case runs in that mode.  The default-mode coverage (incl. the
+# exhaustive claims) is unaffected: the DEBUG run is always an additional evaluation.
+
+DEBUG_EVERY = int(os.environ.get("VP_DEBUG_EVERY", "8"))
+_LOGGING_MODE = ["OFF"]
+
+
+def set_logging_mode(mode: str):
+    if mode == _LOGGING_MODE[0]:
+        return
+    _LOGGING_MODE[0] = mode
+    if mode == "DEBUG":
+        root = logging.getLogger()
+        if not any(isinstance(h, logging.NullHandler) for h in root.handlers):
+            root.addHandler(logging.NullHandler())
+        for h in list(root.handlers):
+            if not isinstance(h, logging.NullHandler):
+                root.removeHandler(h)
+        root.setLevel(logging.DEBUG)
+        logging.disable(logging.NOTSET)
+    else:
+        logging.disable(logging.CRITICAL)
+
+
+def case_mode(case) -> Optional[str]:
+    return case.get("_logging") if isinstance(case, dict) else None
+
+
+def invoke(oracle: Callable[[Any], None], case: Any, mode: Optional[str] = None):
+    """Run an oracle in the logging mode the case is tagged with (or ``mode``), restoring the previous mode afterwards."""
+    want = mode or case_mode(case) or "OFF"
+    prev = _LOGGING_MODE[0]
+    if want == prev:
+        return oracle(case)
+    set_logging_mode(want)
+    try:
+        return oracle(case)
+    finally:
+        set_logging_mode(prev)
+
+
+def tag_debug(case):
+    return dict(case, _logging="DEBUG") if isinstance(case, dict) else case
+
+
+# ----------------------------------------------------------------------------------------------
 # Sub-check registry and context
 
 
@@ -424,16 +477,27 @@ class Ctx:
         return None
 
     def run_case(self, sub: str, oracle: Callable[[Any], None], case: Any, tally: Optional[Tally] = None) -> bool:
-        """Run an oracle on one case (enumeration drivers).  Returns True when it held or is a known finding."""
+        """Run an oracle on one case (enumeration drivers).  Returns True when it held or is a known finding.  Every
+        DEBUG_EVERY-th case that held is judged once more with debug logging effective (see set_logging_mode)."""
+        held = self._run_once(sub, oracle, case, tally)
+        if held and DEBUG_EVERY and case_mode(case) is None:
+            self._n_run_case = getattr(self, "_n_run_case", 0) + 1
+            if self._n_run_case % DEBUG_EVERY == 0:
+                t = tally if tally is not None else self.tally
+                t.extra["cases_rejudged_with_debug_logging"] = t.extra.get("cases_rejudged_with_debug_logging", 0) + 1
+                return self._run_once(sub, oracle, case, tally, mode="DEBUG")
+        return held
+
+    def _run_once(self, sub, oracle, case, tally, mode: Optional[str] = None) -> bool:
         try:
-            oracle(case)
+            invoke(oracle, case, mode)
             return True
         except Fail as f:
-            return self.judge(sub, case, f, tally) is not None
+            return self.judge(sub, tag_debug(case) if mode == "DEBUG" else case, f, tally) is not None
         except Exception as e:
             if lib_raised(e):
                 f = Fail("no_unexpected_exception", observed=f"{type(e).__name__}: {e}", expected="no exception", klass=exc_klass(e))
-                return self.judge(sub, case, f, tally) is not None
+                return self.judge(sub, tag_debug(case) if mode == "DEBUG" else case, f, tally) is not None
             raise
 
     # -- sharding --------------------------------------------------------------------------
@@ -445,8 +509,9 @@ class Ctx:
                 fn(it, self.tally)
             return
         warm_hypothesis_constants()
-        global _SHARD_FN
+        global _SHARD_FN, _SHARD_CTX
         _SHARD_FN = fn
+        _SHARD_CTX = self
         mp = multiprocessing.get_context("fork")
         with mp.Pool(procs) as pool:
             for res in pool.imap(_shard_entry, items, chunksize):
@@ -468,18 +533,31 @@ class Ctx:
         tolerated: set = set()
         phases = [Phase.explicit, Phase.reuse, Phase.generate, Phase.target] + ([Phase.shrink] if shrink else [])
         for rnd in range(max_rounds):
-            def body(case):
-                fail = None
+            def once(case, mode=None):
                 try:
-                    oracle(case)
+                    invoke(oracle, case, mode)
                 except Fail as f0:
-                    fail = f0
+                    return f0
                 except hypothesis.errors.HypothesisException:
                     raise
                 except Exception as e:
                     if not lib_raised(e):
                         raise
-                    fail = Fail("no_unexpected_exception", observed=f"{type(e).__name__}: {e}", expected="no exception", klass=exc_klass(e))
+                    return Fail("no_unexpected_exception", observed=f"{type(e).__name__}: {e}", expected="no exception", klass=exc_klass(e))
+                return None
+
+            def body(case):
+                fail = once(case)
+                if fail is None and DEBUG_EVERY:
+                    try:
+                        pick = digest(jsonable(case))[0] % DEBUG_EVERY == 0
+                    except Exception:
+                        pick = False
+                    if pick:
+                        t.extra["cases_rejudged_with_debug_logging"] = t.extra.get("cases_rejudged_with_debug_logging", 0) + 1
+                        fail = once(case, "DEBUG")
+                        if fail is not None:
+                            case = tag_debug(case)
                 if fail is None:
                     if record is not None:
                         record(case, t)
@@ -562,7 +640,7 @@ class Ctx:
             except Fail as f:
                 case, fmin = f.case, f
                 if use_ddmin and isinstance(f.case, dict) and isinstance(f.case.get("ops"), list):
-                    ops, f2 = ddmin_ops(oracle, f.case["ops"], f.clause, f.klass, budget=ddmin_budget)
+                    ops, f2 = ddmin_ops(oracle, f.case["ops"], f.clause, f.klass, budget=ddmin_budget, mode=case_mode(f.case))
                     if f2 is not None:
                         case, fmin = dict(f.case, ops=ops), f2
                 self.judge(sub, case, fmin, t)
@@ -574,10 +652,10 @@ class Ctx:
             break
 
 
-def _judge_ops(oracle, ops):
+def _judge_ops(oracle, ops, mode: Optional[str] = None):
     """Run a history oracle; return the Fail it raises (library exceptions converted), else None."""
     try:
-        oracle({"ops": ops})
+        invoke(oracle, {"ops": ops}, mode)
     except Fail as f:
         return f
     except Exception as e:
@@ -587,7 +665,7 @@ def _judge_ops(oracle, ops):
     return None
 
 
-def ddmin_ops(oracle, ops: list, clause: str, klass: str, budget: int = 600):
+def ddmin_ops(oracle, ops: list, clause: str, klass: str, budget: int = 600, mode: Optional[str] = None):
     """Deterministic delta debugging of an op list: smallest sub-sequence (by chunk removal, then single removal) on which
     ``oracle`` still fails with the same (clause, klass).  Returns (ops, Fail) or (ops, None) when the original history does
     not reproduce outside the machine."""
@@ -595,7 +673,7 @@ def ddmin_ops(oracle, ops: list, clause: str, klass: str, budget: int = 600):
 
     def fails(cand):
         calls[0] += 1
-        f = _judge_ops(oracle, cand)
+        f = _judge_ops(oracle, cand, mode)
         return f if (f is not None and f.clause == clause and f.klass == klass) else None
 
     cur = list(ops)
@@ -629,8 +707,14 @@ def ddmin_ops(oracle, ops: list, clause: str, klass: str, budget: int = 600):
 _SHARD_FN = None
 
 
+_SHARD_CTX = None
+
+
 def _shard_entry(item):
     t = Tally()
+    if _SHARD_CTX is not None:
+        _SHARD_CTX._n_run_case = 0  # which cases get the additional debug-logging evaluation depends on the item only
+    set_logging_mode("OFF")
     try:
         _SHARD_FN(item, t)
         return t
@@ -792,6 +876,22 @@ def make_machine(name: str, runner_factory: Callable[[], Any], rules: Dict[str, 
                         fail = f0
                     if fail is not None:
                         self._failed(fail)
+                if not self.dead and self.ops and DEBUG_EVERY and digest(self.ops)[0] % DEBUG_EVERY == 0:
+                    # the same history once more on a fresh runner with debug logging effective (see set_logging_mode)
+                    t0 = self.vp_tally
+                    if t0 is not None:
+                        t0.extra["cases_rejudged_with_debug_logging"] = t0.extra.get("cases_rejudged_with_debug_logging", 0) + 1
+                    fail = _judge_ops(replay_ops_oracle(runner_factory), list(self.ops), "DEBUG")
+                    if fail is not None:
+                        self.dead = True
+                        sub, ctx = self.vp_sub, self.vp_ctx
+                        case = {"ops": list(self.ops), "_logging": "DEBUG"}
+                        if f"{sub}|{fail.clause}|{fail.klass}" not in self.vp_tolerated:
+                            if ctx.findings.match(ctx.prop, sub, fail, case, ctx.predicates):
+                                ctx.judge(sub, case, fail, t0)
+                            else:
+                                fail.case = case
+                                raise fail
                 r, t, sub = self.runner, self.vp_tally, self.vp_sub
                 if t is not None and self.ops:
                     nt = bool(r.nontrivial()) if hasattr(r, "nontrivial") else len(self.ops) >= 2
